@@ -28,8 +28,8 @@ var baseGroups = map[string]baseGroup{
 		"text handed out by the splitter never aliases a buffer that is written or recycled afterwards (rule C12-UNSAFE)", 3},
 	"LOOP": {"LOOP", "C02", runC02Loop, nil,
 		"every walker evaluates every rule item of every field/entry: its loops leave only through their headers (rule C02-LOOP)", 4},
-	"TEXT": {"TEXT", "C14", func(c *Ctx) { runC14(c); runC14Stack(c); runC14Split(c); runC14SplitterUse(c); runC14Verbatim(c) }, ruleIn("C14-GUARD", "C14-ORDER", "C14-FIRST", "C14-FAST", "C14-SPLIT", "C14-STACK", "C14-USE", "C14-VERBATIM"),
-		"the rule text is split into items and parsed into key, value and message faithfully (rules C14-GUARD, C14-ORDER, C14-FAST, C14-SPLIT, C14-STACK)", 10},
+	"TEXT": {"TEXT", "C14", func(c *Ctx) { runC14Parse(c); runC14(c); runC14Stack(c); runC14Split(c); runC14SplitterUse(c) }, ruleIn("C14-PARSE", "C14-GUARD", "C14-ORDER", "C14-FIRST", "C14-FAST", "C14-SPLIT", "C14-STACK", "C14-USE", "C14-VERBATIM"),
+		"the rule text is split into items and parsed into key, value and message faithfully (rules C14-PARSE, C14-FAST, C14-SPLIT, C14-STACK, C14-USE; C14-GUARD/ORDER/FIRST/VERBATIM when the parser's table is not decided)", 10},
 	"MAT": {"MAT", "C02", runC02Mat, nil,
 		"the clauses accumulated by a call are returned unchanged: groups evaluated before the emptiness test, nil iff empty, exactly one trailing separator removed (rule C02-MAT)", 8},
 	"LRU": {"LRU", "C09", runC09, nil,
